@@ -21,10 +21,15 @@ type verifConn struct {
 func (c *verifConn) Read(b []byte) (int, error) { return 0, errors.New("unused") }
 func (c *verifConn) Write(b []byte) (int, error) {
 	c.env.writes++
-	verifAssume(c.env.writes <= c.env.maxIO)
-	if nondetBool() {
-		c.env.writeFailed = true
-		return 0, errors.New("broken pipe")
+	if !c.env.noWriteFaults {
+		verifAssume(c.env.writes <= c.env.maxIO)
+		if nondetBool() {
+			c.env.writeFailed = true
+			return 0, errors.New("broken pipe")
+		}
+	}
+	if len(b) >= 2 && b[0] == 's' {
+		c.env.okWrites[int(b[1])]++
 	}
 	return len(b), nil
 }
@@ -36,11 +41,14 @@ func (c *verifConn) SetReadDeadline(t time.Time) error  { return nil }
 func (c *verifConn) SetWriteDeadline(t time.Time) error { return nil }
 
 type verifEnv struct {
-	connects    int
-	writes      int
-	maxIO       int
-	connFailed  bool
-	writeFailed bool
+	connects      int
+	writes        int
+	maxIO         int
+	connFailed    bool
+	writeFailed   bool
+	noWriteFaults bool
+	okWrites      map[int]int
+	onDialFailure func()
 }
 
 type verifStreamRec struct {
@@ -48,23 +56,45 @@ type verifStreamRec struct {
 	errs  []error
 }
 
-func verifC16(nStreams, nBufs, maxIO int) {
-	env := &verifEnv{maxIO: maxIO}
+func verifC16Sender(env *verifEnv, sinkCap int) *Sender {
 	s := &Sender{
-		Logger: logrus.StandardLogger(),
-		Sink:   make(chan Stream, 4),
+		Logger:  logrus.StandardLogger(),
+		Sink:    make(chan Stream, sinkCap),
 		BufPool: sync.Pool{New: func() interface{} { return &bytes.Buffer{} }},
 	}
 	s.ConnFactory = func() (net.Conn, error) {
 		env.connects++
-		verifAssume(env.connects <= maxIO)
+		verifAssume(env.connects <= env.maxIO)
 		if nondetBool() {
 			env.connFailed = true
+			if env.onDialFailure != nil {
+				env.onDialFailure()
+			}
 			return nil, errors.New("connection refused")
 		}
 		return &verifConn{env: env}, nil
 	}
+	return s
+}
+
+// verifC16: nStreams flush requests of nBufs buffers each; every connect and write may fail
+// (at most maxIO of each); any request may be cancelled before the sender sees it; with
+// rounds > 0 the harness controls time (the reconnect timer fires only when it says so) and in
+// each round either cancels the request the sender is holding, lets the timer fire, or does
+// nothing; finally the sender is shut down.
+func verifC16(nStreams, nBufs, maxIO, rounds int) {
+	env := &verifEnv{maxIO: maxIO, okWrites: map[int]int{}}
+	if rounds > 0 {
+		verifTimersManual()
+	}
+	s := verifC16Sender(env, 4)
 	ctx, cancel := context.WithCancel(context.Background())
+	// the daemon may be shut down while a dial is in progress (and the dial then fails)
+	env.onDialFailure = func() {
+		if ctx.Err() == nil && nondetBool() {
+			cancel()
+		}
+	}
 	recs := make([]*verifStreamRec, nStreams)
 	cancels := make([]context.CancelFunc, nStreams)
 	cancelled := make([]bool, nStreams)
@@ -76,6 +106,8 @@ func verifC16(nStreams, nBufs, maxIO int) {
 		bufs := make(chan *bytes.Buffer, nBufs)
 		for j := 0; j < nBufs; j++ {
 			b := s.GetBuffer()
+			b.WriteByte('s')
+			b.WriteByte(byte(i))
 			b.WriteString("payload\n")
 			bufs <- b
 		}
@@ -91,14 +123,49 @@ func verifC16(nStreams, nBufs, maxIO int) {
 		}, Buf: bufs}
 	}
 	go s.Run(ctx)
-	verifYield()
+	settle := func() {
+		if rounds == 0 {
+			verifSettle() // the reconnect timer fires by itself in this world
+		} else {
+			verifYield()
+		}
+	}
+	settle()
+	for r := 0; r < rounds; r++ {
+		switch nondetIntIn(0, 2) {
+		case 1:
+			// cancel the oldest unanswered request: the sender is parked (every goroutine ran
+			// until it blocked), requests are taken in order, so this is the one it holds
+			held := -1
+			for i, rec := range recs {
+				if rec.calls == 0 {
+					held = i
+					break
+				}
+			}
+			if held >= 0 && !cancelled[held] {
+				cancels[held]()
+				cancelled[held] = true
+				verifYield()
+				verifAssert(recs[held].calls >= 1, "a request cancelled while the connection is down is not answered when it is cancelled")
+				verifAssert(len(recs[held].errs) > 0, "a request cancelled while the connection is down is answered without an error")
+				verifReach("cancel-held")
+			}
+		case 2:
+			verifAdvanceTime()
+			verifYield()
+		}
+	}
 	// shutdown
 	cancel()
-	verifYield()
+	settle()
 	for i, rec := range recs {
 		verifAssert(rec.calls >= 1, "a flush request handed to the sender is never answered (no callback)")
 		verifAssert(rec.calls <= 1, "a flush request handed to the sender is answered more than once")
-		_ = i
+		if env.okWrites[i] < nBufs {
+			verifAssert(len(rec.errs) > 0, "a request whose buffers were not all written is answered without an error")
+			verifReach("undelivered")
+		}
 	}
 	if !env.connFailed && !env.writeFailed {
 		for i, rec := range recs {
@@ -115,12 +182,65 @@ func verifC16(nStreams, nBufs, maxIO int) {
 	}
 }
 
-func VerifC16_1_1() { verifC16(1, 1, 3) }
-func VerifC16_1_2() { verifC16(1, 2, 4) }
-func VerifC16_2_1() { verifC16(2, 1, 4) }
-func VerifC16_2_2() { verifC16(2, 2, 5) }
+func VerifC16_1_1() { verifC16(1, 1, 3, 0) }
+func VerifC16_1_2() { verifC16(1, 2, 4, 0) }
+func VerifC16_2_1() { verifC16(2, 1, 4, 0) }
+func VerifC16_2_2() { verifC16(2, 2, 5, 0) }
+
+// with harness-controlled time
+func VerifC16_T_1_1() { verifC16(1, 1, 3, 2) }
+func VerifC16_T_2_1() { verifC16(2, 1, 3, 2) }
+func VerifC16_T_2_2() { verifC16(2, 2, 4, 3) }
+
+// VerifC16_Rollover: a connection is recycled after maxStreamsPerConnection requests. One
+// request is picked up while the connection is down, then 100 requests are delivered on one
+// connection, the next connect may fail again; all flush contexts are done by then (a flusher
+// cancels its context when the flush interval ends). Writes never fail here.
+func VerifC16_Rollover() {
+	const n = maxStreamsPerConnection + 1
+	env := &verifEnv{maxIO: 4, okWrites: map[int]int{}, noWriteFaults: true}
+	verifTimersManual()
+	s := verifC16Sender(env, n)
+	ctx, cancel := context.WithCancel(context.Background())
+	calls := make([]int, n)
+	var cancels []context.CancelFunc
+	push := func(i int) {
+		sctx, scancel := context.WithCancel(ctx)
+		cancels = append(cancels, scancel)
+		bufs := make(chan *bytes.Buffer, 1)
+		b := s.GetBuffer()
+		b.WriteString("payload\n")
+		bufs <- b
+		close(bufs)
+		s.Sink <- Stream{Ctx: sctx, Cb: func(errs []error) { calls[i]++ }, Buf: bufs}
+	}
+	push(0)
+	go s.Run(ctx)
+	verifYield()
+	for i := 1; i < n-1; i++ {
+		push(i)
+	}
+	verifAdvanceTime()
+	verifYield()
+	// the flush intervals of everything handed over so far have ended
+	for _, c := range cancels {
+		c()
+	}
+	verifYield()
+	push(n - 1)
+	verifAdvanceTime()
+	verifYield()
+	verifAdvanceTime()
+	verifYield()
+	cancel()
+	verifYield()
+	for i := 0; i < n; i++ {
+		verifAssert(calls[i] == 1, "a flush request is not answered exactly once around a connection rollover")
+	}
+	verifReach("rollover-done")
+}
 
 func VerifC16_Twin() {
-	verifC16(1, 1, 3)
+	verifC16(1, 1, 3, 2)
 	verifAssert(false, "twin-false")
 }
